@@ -37,3 +37,13 @@ Theorem C06_target_changes_only_when_due :
   nth i tr [] = if due (k0 + i)%nat then law (online (k0 + i)%nat) prev else prev.
 Proof. exact target_changes_only_when_due. Qed.
 Print Assumptions C06_target_changes_only_when_due.
+
+(** a soft update applied d times at one update point is a single step with coefficient 1 - (1 - tau)^d, not tau:
+    refuted as an implementation of the documented rule *)
+Theorem C06_repeated_soft_update : forall (tau o t : R) (d : nat),
+  Nat.iter d (polyak tau o) t = polyak (1 - (1 - tau) ^ d) o t.
+Proof. exact polyak_iter. Qed.
+Print Assumptions C06_repeated_soft_update.
+Theorem C06_repeated_soft_update_refuted : exists tau o t : R, 0 < tau < 1 /\ polyak tau o (polyak tau o t) <> polyak tau o t.
+Proof. exact polyak_twice_refuted. Qed.
+Print Assumptions C06_repeated_soft_update_refuted.
